@@ -139,7 +139,7 @@ fn compare(exp: &ExpEvent, obs: &ObsEvent, sign_encoded: bool) -> Result<(), (&'
                 return Err(("event_kind_mismatch", "depth update was normalised into a snapshot".into()));
             }
             if os != sequence {
-                return Err(("event_amount_mismatch", format!("sequence: message says {sequence}, event carries {os}")));
+                return Err(("event_sequence_mismatch", format!("sequence: message says {sequence}, event carries {os}")));
             }
             let want_b = sorted(bids.iter().map(|(p, a)| (d(p), d(a))).collect());
             let want_a = sorted(asks.iter().map(|(p, a)| (d(p), d(a))).collect());
